@@ -107,6 +107,12 @@ class FMMetrics(Metrics):  # pylint: disable=too-many-instance-attributes
         return _constraints_per_feature
 
     @staticmethod
+    def _is_group_feature(feature: Feature) -> bool:
+        """A feature with a group relation of any class (a single-child relation that is neither
+        mandatory nor optional, e.g. [0..0], is a cardinality group too)."""
+        return feature.is_group() or feature.is_cardinality_group()
+
+    @staticmethod
     def _is_grouped(feature: Feature) -> bool:
         """A feature is grouped if it is a member of a group relation of its parent."""
         return feature.parent is not None and any(
@@ -436,7 +442,7 @@ class FMMetrics(Metrics):  # pylint: disable=too-many-instance-attributes
 
         name = "Feature groups"
         _tree_relationships = list(self.model.get_relations())
-        _feature_groups = [f.name for f in self._features if f.is_group()]
+        _feature_groups = [f.name for f in self._features if self._is_group_feature(f)]
         result = self.construct_result(
             name=name,
             doc=self.feature_groups.__doc__,
@@ -456,7 +462,7 @@ class FMMetrics(Metrics):  # pylint: disable=too-many-instance-attributes
             raise FlamaException("Feature model is not defined.")
 
         name = "Alternative groups"
-        _group_features = [f.name for f in self._features if f.is_group()]
+        _group_features = [f.name for f in self._features if self._is_group_feature(f)]
         _alternative_groups = [
             f.name for f in self.model.get_alternative_group_features()
         ]
@@ -479,7 +485,7 @@ class FMMetrics(Metrics):  # pylint: disable=too-many-instance-attributes
             raise FlamaException("Feature model is not defined.")
 
         name = "Or groups"
-        _group_features = [f.name for f in self._features if f.is_group()]
+        _group_features = [f.name for f in self._features if self._is_group_feature(f)]
         _or_groups = [f.name for f in self.model.get_or_group_features()]
         result = self.construct_result(
             name=name,
@@ -497,7 +503,7 @@ class FMMetrics(Metrics):  # pylint: disable=too-many-instance-attributes
         """Feature groups that require the selection of zero or just one child (i.e.,
         [0..1] cardinality)."""
         name = "Mutex groups"
-        _group_features = [f.name for f in self._features if f.is_group()]
+        _group_features = [f.name for f in self._features if self._is_group_feature(f)]
         _mutex_groups = [f.name for f in self._features if f.is_mutex_group()]
         result = self.construct_result(
             name=name,
@@ -515,7 +521,7 @@ class FMMetrics(Metrics):  # pylint: disable=too-many-instance-attributes
         """Feature groups with arbitrary cardinality [a..b] that require the selection
         of a minimum and a maximum number of children."""
         name = "Cardinality groups"
-        _group_features = [f.name for f in self._features if f.is_group()]
+        _group_features = [f.name for f in self._features if self._is_group_feature(f)]
         _cardinality_groups = [
             f.name for f in self._features if f.is_cardinality_group()
         ]
